@@ -71,6 +71,7 @@ func runC19(c *report.Ctx) {
 	rulePtrWithErr(c)
 	ruleNilOnSuccess(c)
 	ruleBalanceMapCoversReadyWallets(c)
+	ruleBalanceLookupPresence(c)
 	ruleSelectionResetOnDelete(c)
 
 	// ---- (4) containment ------------------------------------------------------------------------
